@@ -147,7 +147,9 @@ def to_json(v):
     if isinstance(v, datetime.date):
         return {'$date': [v.year, v.month, v.day]}
     if isinstance(v, time.struct_time):
-        return {'$st': list(v)}
+        # 9 visible fields + the two hidden ones a localtime()/strptime('%z') result has
+        return {'$st': list(v) + [getattr(v, 'tm_zone', None),
+                                  getattr(v, 'tm_gmtoff', None)]}
     if isinstance(v, tuple):
         return {'$tuple': [to_json(x) for x in v]}
     if isinstance(v, list):
@@ -194,6 +196,8 @@ def from_json(j):
         if tag == '$date':
             return datetime.date(*val)
         if tag == '$st':
+            if len(val) == 11 and val[10] is None and val[9] is None:
+                val = val[:9]
             return time.struct_time(tuple(val))
         if tag == '$tuple':
             return tuple(from_json(x) for x in val)
